@@ -129,3 +129,22 @@ Proof.
     apply remove_node_is_source. exact I.
   - intros s1 n I. destruct (has n (h_node s1)); [apply Inv_remove_node; exact I|exact I].
 Qed.
+
+(* ---------- add_nodes_from ---------- *)
+Theorem add_nodes_from_is_source items a s : Inv s ->
+  run_node_attr_items src_add_nodes_from_item items a s = add_nodes_from items a s.
+Proof.
+  unfold run_node_attr_items, add_nodes_from, src_add_nodes_from_item. apply (loop_ext_inv Inv).
+  - intros s1 [n od] I. cbn [fst snd]. set (nd := match od with None => a | Some d => aupdate a d end).
+    destruct I as (_ & (Kna & _) & _).
+    rewrite exec_list_cons, exec_if. cbn [beval]. hgs.
+    destruct (has n (h_node s1)) eqn:Hn; cbn [negb].
+    + rewrite exec_list_nil, exec_list_cons, exec_attrupdate. hgs.
+      assert (Ha : has n (h_nattr s1) = true) by (apply has_In; rewrite Kna; apply has_In; exact Hn).
+      unfold has in Ha. destruct (get n (h_nattr s1)) as [x|] eqn:G; [|discriminate Ha].
+      rewrite exec_list_nil. unfold ok, nattr_update, geta. rewrite G. reflexivity.
+    + destruct (is_none n) eqn:Nn; [repeat step; rewrite Nn; reflexivity|].
+      repeat step. rewrite ?exec_list_cons, exec_attrupdate. hgs. rewrite get_set_same. rewrite ?exec_list_nil.
+      unfold ok, nattr_update, ensure_node, geta. rewrite Hn. hgs. rewrite get_set_same. reflexivity.
+  - intros s1 [n od] I. apply (Inv_add_node_body n (match od with None => a | Some d => aupdate a d end) s1 I).
+Qed.
